@@ -807,6 +807,9 @@ class Sym:
         return f"Sym({s[:200]})"
 
 
+# NumPy ufuncs applied to object arrays call methods of these names on the elements
+for _fn in ("sqrt", "cbrt", "sin", "cos", "tan", "exp", "log", "arctan", "arccos", "arcsin", "sinh", "cosh", "tanh", "arcsinh"):
+    setattr(Sym, _fn, (lambda name: (lambda self: getattr(LIB, name)(self)))(_fn))
 numbers.Real.register(Sym)
 for _m in (
     "__add__ __radd__ __sub__ __rsub__ __mul__ __rmul__ __truediv__ __rtruediv__ "
@@ -1315,6 +1318,11 @@ class SymLib:
     def arctan(self, u):
         c = ctx()
         u = use(S(u))
+        _kn, _kd = simp(u.n), simp(u.d)
+        c.keep += [_kn, _kd]  # keep alive: z3 reuses the ids of freed terms
+        _key = ("arctan", _kn.get_id(), _kd.get_id())
+        if _key in c.cache:
+            return c.cache[_key]
         pi = c.pi
         for (t, cs, sn) in self._known_angles():
             c.stats.merge_q += 1
@@ -1325,11 +1333,17 @@ class SymLib:
         A, cs, sn = self._angle("atan", lambda k: _mp.atan(c.num(u.term(), k)))
         c.add_fact(z3.And(A > -pi / 2, A < pi / 2, (A > 0) == (u > 0).t, (A == 0) == (u == 0).t), "rng", "atan-range")
         c.add_fact(z3.And((cs > 0).t, (sn == u * cs).t), "rel", "atan")
-        return Sym(A)
+        c.cache[_key] = Sym(A)
+        return c.cache[_key]
 
     def arccos(self, u):
         c = ctx()
         u = use(S(u))
+        _kn, _kd = simp(u.n), simp(u.d)
+        c.keep += [_kn, _kd]  # keep alive: z3 reuses the ids of freed terms
+        _key = ("arccos", _kn.get_id(), _kd.get_id())
+        if _key in c.cache:
+            return c.cache[_key]
         pi = c.pi
         for (t, cs, sn) in self._known_angles():
             c.stats.merge_q += 1
@@ -1341,11 +1355,17 @@ class SymLib:
         c.add_fact(z3.And((u >= -1).t, (u <= 1).t), "defd", "acos-arg")
         c.add_fact(z3.And(A >= 0, A <= pi), "rng", "acos-range")
         c.add_fact(z3.And((sn >= 0).t, (cs == u).t), "rel", "acos")
-        return Sym(A)
+        c.cache[_key] = Sym(A)
+        return c.cache[_key]
 
     def arcsin(self, u):
         c = ctx()
         u = use(S(u))
+        _kn, _kd = simp(u.n), simp(u.d)
+        c.keep += [_kn, _kd]  # keep alive: z3 reuses the ids of freed terms
+        _key = ("arcsin", _kn.get_id(), _kd.get_id())
+        if _key in c.cache:
+            return c.cache[_key]
         pi = c.pi
         import mpmath as _mp
 
@@ -1353,7 +1373,8 @@ class SymLib:
         c.add_fact(z3.And((u >= -1).t, (u <= 1).t), "defd", "asin-arg")
         c.add_fact(z3.And(A >= -pi / 2, A <= pi / 2), "rng", "asin-range")
         c.add_fact(z3.And((cs >= 0).t, (sn == u).t), "rel", "asin")
-        return Sym(A)
+        c.cache[_key] = Sym(A)
+        return c.cache[_key]
 
     # -- exponentials --------------------------------------------------------------------
     def exp(self, a):
@@ -1365,6 +1386,11 @@ class SymLib:
     def log(self, u):
         c = ctx()
         u = use(S(u))
+        _kn, _kd = simp(u.n), simp(u.d)
+        c.keep += [_kn, _kd]  # keep alive: z3 reuses the ids of freed terms
+        _key = ("log", _kn.get_id(), _kd.get_id())
+        if _key in c.cache:
+            return c.cache[_key]
         for (t, E) in self._known_exps():
             c.stats.merge_q += 1
             if c.entails((E == u).t, kind="merge"):
@@ -1378,7 +1404,8 @@ class SymLib:
         c.add_fact((u > 0).t, "defd", "log-arg")
         E = exp_of(Sym(L))
         c.add_fact((E == u).t, "rel", "log")
-        return Sym(L)
+        c.cache[_key] = Sym(L)
+        return c.cache[_key]
 
     def sinh(self, a):
         E = exp_of(a)
@@ -1395,6 +1422,11 @@ class SymLib:
     def arcsinh(self, w):
         c = ctx()
         w = use(S(w))
+        _kn, _kd = simp(w.n), simp(w.d)
+        c.keep += [_kn, _kd]  # keep alive: z3 reuses the ids of freed terms
+        _key = ("arcsinh", _kn.get_id(), _kd.get_id())
+        if _key in c.cache:
+            return c.cache[_key]
         for (t, E) in self._known_exps():
             c.stats.merge_q += 1
             if c.entails(((E - 1 / E) / 2 == w).t, kind="merge"):
@@ -1406,7 +1438,8 @@ class SymLib:
 
         c.shadow_set(A, lambda k: _mp.asinh(c.num(w.term(), k)))
         c.add_fact((self.sinh(Sym(A)) == w).t, "rel", "asinh")
-        return Sym(A)
+        c.cache[_key] = Sym(A)
+        return c.cache[_key]
 
     # -- modulo --------------------------------------------------------------------------
     def mod(self, a, m):
